@@ -491,6 +491,16 @@ def generate():
         # then connect), one-shot server new (owner before bind — shape_serverOwnsBeforeBind)
         cn = 'let(sockaddr,len)=new_sockaddr_un(name.as_ptr())?;letfd=libc::socket(libc::AF_UNIX,SOCK_SEQPACKET|SOCK_FLAGS,0);iffd<0{returnErr(UnixError::last());}letsender=OsIpcSender::from_fd(fd);iflibc::connect(' in flat
         out.append(f"def shape_connectOwnsBeforeFallible : Bool := {'true' if cn else 'false'}")
+        # a receiver set takes a member's descriptor over only after the registration has succeeded (on failure the receiver passed
+        # in still owns it and closes it when dropped at the end of `add`)
+        m = re.search(r'pubfnadd\(&mutself,receiver:OsIpcReceiver\)->Result<u64,UnixError>\{(.*?)\}pubfnselect', flat)
+        if not m:
+            fail("OsIpcReceiverSet::add not found")
+        ab = m.group(1)
+        i_reg, i_con = ab.find('.register(&mutSourceFd(&fd),fd_token,Interest::READABLE)?;'), ab.find('receiver.consume_fd()')
+        if i_reg < 0 or i_con < 0 or ab.count('consume_fd()') != 1:
+            fail("OsIpcReceiverSet::add: registration / take-over of the descriptor not recognised")
+        out.append(f"def shape_setAddOwnsAfterRegister : Bool := {'true' if i_reg < i_con else 'false'}  -- false: descriptor taken out of the receiver before the fallible registration")
     run_unit('GenOwn', unit_own)
 
     def unit_set(out):
